@@ -127,12 +127,23 @@ class TlcResult:
         if m:
             self.generated, self.distinct = int(m[-1][0]), int(m[-1][1])
         self.prints = []
+        buf = None
         for line in out.splitlines():
-            line = line.strip()
-            if line.startswith('<<"'):
-                v = parse_tla(line)
-                if v is not None:
+            t = line.strip()
+            if buf is None:
+                if t.startswith("<<"):
+                    buf = t
+                else:
+                    continue
+            else:
+                buf += " " + t
+            if buf.count("<<") <= buf.count(">>") and buf.count("{") <= buf.count("}"):
+                v = parse_tla(buf)
+                if v is not None and isinstance(v, list) and v and isinstance(v[0], str):
                     self.prints.append(v)
+                buf = None
+            elif len(buf) > 2000000:
+                buf = None
         self.errors = [l for l in out.splitlines() if l.startswith("Error:")]
         self.coverage = {}
         for m in re.finditer(r"^<(\w+) line \d+, col \d+ to line \d+, col \d+ of module (\w+)>: (\d+):(\d+)", out, re.M):
